@@ -12,6 +12,8 @@ use std::time::Duration;
 use emit::{Props, Str, Value};
 use hcommon::Sexp;
 
+pub use super::fixtures::{Fx, Via};
+
 // ------------------------------------------------------------------------------------------ integers
 
 #[derive(Clone, Copy, Debug, PartialEq, Eq)]
@@ -582,6 +584,9 @@ pub enum Val {
     ArrI64(Vec<i64>),
     ArrF64(Vec<f64>),
     Sv(Tree),
+    /// a harness type with derived `sval::Value` / `serde::Serialize`, or a std collection, captured through
+    /// `Value::from_sval` or `Value::from_serde`
+    Fx(Via, Fx),
 }
 
 macro_rules! arr_value {
@@ -629,6 +634,7 @@ impl Real {
             Real::Plain(Val::Lvl(l)) => emit::value::ToValue::to_value(l),
             Real::Plain(Val::Kind(k)) => emit::value::ToValue::to_value(k),
             Real::Plain(Val::Sv(t)) => Value::from_sval(t),
+            Real::Plain(Val::Fx(via, fx)) => fx.to_value(*via),
             Real::Plain(Val::ArrI64(v)) => arr_value!(v, i64),
             Real::Plain(Val::ArrF64(v)) => arr_value!(v, f64),
             Real::Dbg(d) => Value::from_debug(d),
@@ -667,6 +673,12 @@ impl Val {
             Val::Sv(t) => {
                 let disp = Value::from_sval(t).to_string();
                 Sexp::tagged("sv", vec![t.to_sexp(), Sexp::str(&disp)])
+            }
+            Val::Fx(via, fx) => {
+                let mut a = vec![Sexp::atom(if *via == Via::Sval { "sval" } else { "serde" })];
+                a.extend(fx.to_sexp_args());
+                a.push(Sexp::str(&fx.to_value(*via).to_string()));
+                Sexp::tagged("fx", a)
             }
             Val::ArrI64(v) => Sexp::tagged(
                 "arr-i64",
@@ -721,6 +733,18 @@ impl Val {
                 "metric" => emit::Kind::Metric,
                 _ => return None,
             })),
+            ("fx", n) if n >= 3 => {
+                let via = match args[0].as_atom()? {
+                    "sval" => Via::Sval,
+                    "serde" => Via::Serde,
+                    _ => return None,
+                };
+                let fx = Fx::parse(&args[1..n - 1])?;
+                if !loose() && args[n - 1].as_string()? != fx.to_value(via).to_string() {
+                    return None;
+                }
+                Some(Val::Fx(via, fx))
+            }
             ("arr-i64", 2) => {
                 let v: Vec<i64> = args[0].as_list()?.iter().map(|x| x.as_i64()).collect::<Option<_>>()?;
                 if v.len() > 6 || (!loose() && args[1].as_string()? != arr_value!(v, i64).to_string()) {
